@@ -203,7 +203,7 @@ def toWireCLoop (out : Bytes) (t : CTable) : (labels : Name) → Bytes × CTable
   | [] => (out, t)
   | l :: rest =>
     match ctGet t (l :: rest) with
-    | some pos => (out ++ [(0xC000 + pos) / 256, (0xC000 + pos) % 256], t)
+    | some pos => (out ++ [(Consts.ptrBase + pos) / 256, (Consts.ptrBase + pos) % 256], t)
     | none =>
       let t' := if (l :: rest).length > 1 ∧ out.length ≤ Consts.maxPtr then t ++ [(l :: rest, out.length)] else t
       toWireCLoop (out ++ l.length :: l) t' rest
